@@ -178,7 +178,7 @@ def one_field_cases(rng, tier, types=None):
                 cand |= {1 << i for i in range(w)}
                 for _ in range(reps):
                     for v in sorted(cand):
-                        for mode in ('zeros', 'ones', 'random'):
+                        for mode in ('zeros', 'ones', 'random', 'maxvalid', 'unavailable'):
                             vals = gen.rand_values(rng, allf, mode)
                             vals.update(fixed); vals['type'] = t; vals[name] = v
                             out.append(M(gen.pack(gen.bits_of(allf, vals))))
@@ -262,7 +262,7 @@ def enum_cases(rng, tier):
                     for code in range(1 << w):
                         # neighbours all zeros / all ones / random, then one identity of every station class of
                         # ITU-R M.585 (a code's meaning must not depend on who transmits it)
-                        for mode in ['zeros', 'ones', 'random', 'random'] + list(range(gen.IDENTITY_CLASSES)):
+                        for mode in ['zeros', 'ones', 'random', 'random', 'maxvalid', 'unavailable'] + list(range(gen.IDENTITY_CLASSES)):
                             vals = gen.rand_values(rng, fl, mode if isinstance(mode, str) else 'mixed')
                             if not isinstance(mode, str): vals['mmsi'] = gen.identity_of_class(rng, mode)
                             vals.update(fixed); vals['type'] = t; vals[name] = code
@@ -871,6 +871,17 @@ def reassembly_cases(rng, tier):
         out.append('H c')
         for i in range(n): out.append(C(0, 1, line(i)))
         out.append(C(0, 1, gen.sentence(b''.join(bytes(p) for p in parts), fill)))
+    # long runs of transparent lines between two fragments (anything that counts lines to age a group out)
+    for K in (1, 2, 7, 8, 9, 10, 15, 16, 17, 31, 32, 33, 63, 64, 65, 100, 127, 128, 129, 255, 256, 257, 300):
+        pay, fill = gen.armor(gen.message_bits(rng, rng.choice([5, 8, 21])))
+        frs = gen.fragment(rng, pay, fill, 2, rng.choice([None, 1]))
+        for kind in range(3):
+            out.append('H c'); out.append(C(0, 1, frs[0]))
+            for _ in range(K):
+                x = [gen.valid_sentence(rng), gen.sentence(b'9', 0, 2, 2, 8), gen.valid_sentence(rng)[:-2] + b'zz'][kind]
+                out.append(L(0, 1, x))
+            out.append(C(0, 1, frs[1]))
+            out.append(C(0, 1, gen.sentence(pay, fill)))
     # all split points of short payloads
     for t in (10, 27, 7):
         pay, fill = gen.armor(gen.message_bits(rng, t, 'random'))
@@ -904,6 +915,16 @@ def capacity_cases(rng, tier):
         out.append(L(0, 1, gen.sentence(rp(c), 0, 3, 3, 4)))
         out.append(L(0, 1, gen.sentence(rp(c), 0, 3, 3, 4)))
         out.append(L(0, 1, gen.sentence(b'15M', 0)))
+    # an abandoned group leaves bytes behind; the next group must be judged on its own size
+    for stale in (100, 300, 330, 336, 383, 384):
+        for first in (40, 49, 54, 55, 71, 85):
+            out.append('H')
+            k, left = 1, stale
+            while left > 0:
+                out.append(L(0, 0, gen.sentence(rp(min(60, left)), 0, 9, k, 3))); left -= 60; k += 1
+            pay, fill = gen.armor(gen.message_bits(rng, 5))
+            out.append(L(0, 1, gen.sentence(pay[:first], 0, 2, 1, 1))); out.append(L(0, 1, gen.sentence(pay[first:], fill, 2, 2, 1)))
+            out.append(L(0, 1, gen.sentence(b'15M', 0)))
     # a long group whose fragment k overflows the buffer by one byte, then more fragments
     for k in (2, 3, 100, 254, 255):
         for over in (0, 1):
